@@ -220,6 +220,64 @@ CLAIMS["C18"] = dict(
          "relative plus an analytic cancellation term.",
     design="3/C18")
 
+CLAIMS["C11"] = dict(
+    technique="exhaustive enumeration of graphs x group assignments + "
+              "Hypothesis generation, against definitions evaluated on "
+              "sub-blocks of harness-computed matrices; dense-vs-sparse "
+              "differential; symmetry and whole-network metamorphic "
+              "relations",
+    text="Every undirected graph on 2..4 nodes (a fixed fraction on 5) x "
+         "every assignment of nodes to {group 1, group 2, neither} x two "
+         "list orders, plus generated graphs up to 14 nodes with random "
+         "groups in random order (incl. unreachable pairs, directed "
+         "networks for the methods that support them): ~60 clauses covering "
+         "sub-block extraction, cross/internal degrees and strengths, link "
+         "counts and densities, cross clustering / transitivity (compiled "
+         "== _sparse == definition), path-length, closeness, efficiency and "
+         "betweenness measures, all n.s.i. cross/internal measures; "
+         "group-order symmetry; both groups = whole node set reproduces the "
+         "single-network measure (12 correspondences).",
+    note="Trusted: vp/ref/graph.py and the sub-block formulas in the "
+         "oracle. Known finding KF-C11-1 (nsi_cross_average_path_length "
+         "normalised by W1*W1, pinned by the suite) is excluded by a "
+         "clause-name suffix computed from the case (groups of unequal "
+         "weight). CoupledClimateNetwork wrappers are not exercised.",
+    design="3/C11")
+CLAIMS["C12"] = dict(
+    technique="Hypothesis generation + exhaustive lattice of special "
+              "coordinate pairs against closed-form float64 geometry with "
+              "an analytic error bound",
+    text="All pairs over a lattice of special coordinates (poles, 0/+-180/"
+         "360, near-polar) and generated coordinate sets with duplicates, "
+         "360-degree aliases, exact / perturbed antipodes and neighbours "
+         "down to 1e-7 degrees: great-circle distances equal the haversine/"
+         "atan2 form within min(2^-10, 2^-18 + 2^-20/sin theta), exact "
+         "symmetry, self-distance, range, triangle inequality; Euclidean "
+         "distances for dimension 1..4; nearest-node lookup; rectangular "
+         "grids = Cartesian product in documented order; node weights "
+         "cos / cos^2 of each node's own latitude incl. after switching the "
+         "weight type; area-weighted connectivity and link-distance "
+         "measures equal their defining sums.",
+    note="Trusted: vp/ref/geometry.py. The error bound is the calibrated "
+         "one of DESIGN 3/C12 (a 1.0000036x precision mutant is caught).",
+    design="3/C12")
+CLAIMS["C13"] = dict(
+    technique="Hypothesis-generated window histories (as data) + "
+              "exhaustive window lattice against a plain numpy model",
+    text="Every time window over a 7-bound lattice x cycle lengths x both "
+         "anomaly flags and every lat/lon window over a 6x5 lattice are "
+         "enumerated; generated observables (T 1..36 x N 1..8, irregular "
+         "float32-exact grids, cycles that do not divide T in ~50% of "
+         "cases) with histories of set_window / set_global_window: "
+         "observable, grid, window, phase indices, phase means, anomalies "
+         "and selected months have the model's shapes and values after "
+         "every step; anomalies have zero phase mean and add back to the "
+         "windowed observable; the global window restores the original "
+         "view.",
+    note="Trusted: the numpy model in props/c13.py. Windows selecting "
+         "nothing are outside the domain; bounds are float32-exact.",
+    design="3/C13")
+
 NOT_CLAIMED = {}
 
 
